@@ -23,12 +23,18 @@ ClientOnly == {65518}
 Belongs(id, role) == IF role = "client" THEN id \notin ServerOnly ELSE id \notin ClientOnly
 Required(role) == CASE role = "client" -> {15} [] role = "server" -> {15, 0} [] OTHER -> {}
 
-\* bounds (ParameterId::validate): max_udp_payload_size 1200..65527, ack_delay_exponent 0..20, active_connection_id_limit >= 2
-InBounds(id, v) ==
+\* bounds (ParameterId::validate): max_udp_payload_size 1200..65527, ack_delay_exponent 0..20, active_connection_id_limit >= 2.
+\* RFC 9000 also bounds max_ack_delay (< 2^14, §18.2) and initial_max_streams_* (<= 2^60, §4.6); the pinned code does not
+\* (that is property C18's business, and a proposed fix adds these bounds), so here both behaviours are legal:
+\* `strict` selects the RFC bounds, and a recorded decode has to agree with the strict OR the lenient reference.
+InBoundsS(id, v, strict) ==
     CASE id = 3 -> IsSmall(v) /\ ToInt(v) \in 1200..65527
       [] id = 10 -> IsSmall(v) /\ ToInt(v) <= 20
       [] id = 14 -> ~(IsSmall(v) /\ ToInt(v) < 2)
+      [] id \in {8, 9} /\ strict -> Leq8(v, <<16, 0, 0, 0, 0, 0, 0, 0>>)
+      [] id = 11 /\ strict -> IsSmall(v) /\ ToInt(v) < 16384
       [] OTHER -> TRUE
+InBounds(id, v) == InBoundsS(id, v, TRUE)          \* values used for C05 satisfy the strict bounds
 
 PaOk(x) == Len(x) >= 41 /\ x[25] <= 20 /\ Len(x) = 41 + x[25]
 ValOk(id, x) ==
@@ -50,10 +56,10 @@ ParamsOk(ps, role) ==
 EncodeParams(ps) == Cat([i \in 1..Len(ps) |-> EncodeParam(ps[i])])
 
 \* the value of one entry from its length-delimited body; the body must be consumed exactly
-DecValue(id, body) ==
+DecValue(id, body, strict) ==
     CASE PType(id) \in {"varint", "duration"} ->
             LET r == DecVarint(body) IN
-            IF r.ok /\ r.n = Len(body) /\ InBounds(id, r.v) THEN [ok |-> TRUE, x |-> r.v] ELSE [ok |-> FALSE]
+            IF r.ok /\ r.n = Len(body) /\ InBoundsS(id, r.v, strict) THEN [ok |-> TRUE, x |-> r.v] ELSE [ok |-> FALSE]
       [] PType(id) = "bool" -> IF body = <<>> THEN [ok |-> TRUE, x |-> <<>>] ELSE [ok |-> FALSE]
       [] PType(id) = "token" -> IF Len(body) = 16 THEN [ok |-> TRUE, x |-> body] ELSE [ok |-> FALSE]
       [] PType(id) = "cid" -> IF Len(body) <= 20 THEN [ok |-> TRUE, x |-> body] ELSE [ok |-> FALSE]
@@ -72,28 +78,30 @@ RawEntries(b, acc) ==
 
 TPE == "TransportParameter"
 \* fold the entries in order (a later duplicate overwrites: D8); m is a function id -> value on the ids seen
-RECURSIVE Fold(_, _, _)
-Fold(es, role, m) ==
+RECURSIVE Fold(_, _, _, _)
+Fold(es, role, m, strict) ==
     IF es = <<>> THEN [ok |-> TRUE, m |-> m]
     ELSE LET e == Head(es) IN
-         IF ~(IsSmall(e.id) /\ ToInt(e.id) \in KnownIdSet) THEN Fold(Tail(es), role, m)      \* unknown ids are ignored (RFC 9000 §7.4.2)
+         IF ~(IsSmall(e.id) /\ ToInt(e.id) \in KnownIdSet) THEN Fold(Tail(es), role, m, strict)      \* unknown ids are ignored (RFC 9000 §7.4.2)
          ELSE LET id == ToInt(e.id) IN
               IF ~Belongs(id, role) THEN [ok |-> FALSE]
-              ELSE LET v == DecValue(id, e.body) IN
+              ELSE LET v == DecValue(id, e.body, strict) IN
                    IF ~v.ok THEN [ok |-> FALSE]
-                   ELSE Fold(Tail(es), role, [k \in DOMAIN m \cup {id} |-> IF k = id THEN v.x ELSE m[k]])
+                   ELSE Fold(Tail(es), role, [k \in DOMAIN m \cup {id} |-> IF k = id THEN v.x ELSE m[k]], strict)
 
 \* Parameters::<Role>::parse_from_bytes: [ok, ps] with ps sorted by id, or TRANSPORT_PARAMETER_ERROR.
 \* The error order of the code (first offending entry wins) cannot change the class: every failure is TPE.
 Present(m) == SelectSeq(KnownIds, LAMBDA k : k \in DOMAIN m)
-DecodeParams(b, role) ==
+DecodeParamsS(b, role, strict) ==
     LET raw == RawEntries(b, <<>>) IN
     \* a truncated tail does not hide an earlier error of another class, because there is only one class
     IF ~raw.ok THEN [ok |-> FALSE, class |-> TPE]
-    ELSE LET f == Fold(raw.es, role, <<>>) IN
+    ELSE LET f == Fold(raw.es, role, <<>>, strict) IN
          IF ~f.ok THEN [ok |-> FALSE, class |-> TPE]
          ELSE IF ~(Required(role) \subseteq DOMAIN f.m) THEN [ok |-> FALSE, class |-> TPE]
          ELSE [ok |-> TRUE, ps |-> [i \in 1..Len(Present(f.m)) |-> [id |-> Present(f.m)[i], val |-> f.m[Present(f.m)[i]]]]]
+
+DecodeParams(b, role) == DecodeParamsS(b, role, TRUE)
 
 (* D8  a repeated parameter is accepted and the last value wins (RFC 9000 §7.4: MUST NOT be sent twice, an endpoint
        SHOULD treat it as TRANSPORT_PARAMETER_ERROR). *)
